@@ -48,6 +48,8 @@ type input struct {
 	// (see encx.WithError); OneRead: everything before the failure offset comes in a single read
 	FailMode string `json:"fail_mode,omitempty"`
 	OneRead  bool   `json:"one_read,omitempty"`
+	// Src: optional interfaces the source also implements, none of which works (encx.SrcOpts.Iface)
+	Src string `json:"src,omitempty"`
 	// recipe "sequence": the recipe of the stream that runs (and fails) first
 	First string `json:"first,omitempty"`
 }
@@ -236,6 +238,30 @@ func init() {
 			return
 		}
 		c.doc = c.doc[:len(c.doc)-16]
+	})
+	// a payload (or what follows whole segments) of exactly the tag length, one less, one more: a stub
+	// that carries no ciphertext at all
+	for _, k := range []int{15, 16, 17} {
+		k := k
+		add(fmt.Sprintf("truncate_payload_to_%d", k), false, func(c *mctx) {
+			if len(c.p) == 0 || len(c.segs[0]) <= k {
+				c.skip = true
+				return
+			}
+			c.doc = cat(c.hdr, c.segs[0][:k])
+		})
+		add(fmt.Sprintf("truncate_%d_past_segment_boundary", k), true, func(c *mctx) {
+			j := 1 + c.r.Intn(len(c.segs)-1)
+			if len(c.segs[j]) <= k {
+				j = 1
+			}
+			c.doc = cat(c.hdr, join(c.segs[:j]), c.segs[j][:k])
+		})
+	}
+	add("payload_replaced_by_16_bytes", false, func(c *mctx) { c.doc = cat(c.hdr, c.r.Bytes(16)) })
+	add("append_16_after_nonfinal_segments", true, func(c *mctx) {
+		j := 1 + c.r.Intn(len(c.segs)-1)
+		c.doc = cat(c.hdr, join(c.segs[:j]), c.r.Bytes(16))
 	})
 	add("truncate_at_segment_boundary", true, func(c *mctx) {
 		j := 1 + c.r.Intn(len(c.segs)-1) // keep segments 0..j-1
@@ -490,6 +516,9 @@ func init() {
 
 var recipeByName = map[string]recipe{}
 
+// hungFor counts, per kind of source (error identity / optional interfaces), the streams that hung
+var hungFor = map[string]int{}
+
 func run(ctx *core.Ctx, in input) error {
 	if in.Recipe == "sequence" {
 		return runSequence(ctx, in)
@@ -533,11 +562,23 @@ func run(ctx *core.Ctx, in input) error {
 			sc = encx.SItems{{K: "d", N: c.failAt}}
 		}
 		sc = encx.WithError(sc, in.FailMode, len(c.doc)-c.failAt)
+	} else if in.OneRead {
+		// the whole document in one read: the payload arrives together with the end of the header
+		sc = encx.SItems{{K: []string{"d", "de"}[in.Style%2], N: len(c.doc)}}
 	} else {
 		sc = encx.GenItems(r, len(c.doc), in.Style, 1+r.Intn(len(c.doc)+1), maxItems)
 	}
-	so := encx.SrcOpts{Fail: in.FailErr, WrapEOF: in.WrapEOF}
+	so := encx.SrcOpts{Fail: in.FailErr, WrapEOF: in.WrapEOF, Iface: in.Src}
+	hkey := in.FailErr + "/" + in.Src
+	if hungFor[hkey] >= 2 {
+		// this kind of source already made two streams hang in this run (each costs a full deadline)
+		ctx.Sink.Count("skipped_after_hangs")
+		return nil
+	}
 	dres := encx.RunDecryptSrc(c.doc, sc, c.tbl, in.OptKn, r.Fork(), so)
+	if dres.Hung {
+		hungFor[hkey]++
+	}
 	docArg := "None"
 	if !in.Big && !c.lenient {
 		docArg = "(Some " + hx.CoqBytes(c.doc) + ")"
@@ -568,11 +609,20 @@ func run(ctx *core.Ctx, in input) error {
 	}
 	cs.Trivial = !c.mutated && c.failAt < 0
 	cs.Observed = map[string]any{"call_error": dres.CallErr != nil, "out_len": len(dres.Out), "status": dres.Status,
-		"doc_len": len(c.doc)}
+		"doc_len": len(c.doc), "hung": dres.Hung, "optional_methods_called": dres.Touched}
+	cs.Facts["src"] = in.Src
+	if in.Src != "" {
+		ctx.Sink.Count("source_optional_interfaces=" + in.Src)
+	}
 	cs.Coq = fmt.Sprintf("CTamper %s %s %s %s %s %s", in.P.Coq(), docArg, c.tbl.Coq(), hx.CoqString(in.OptKn),
 		sc.Coq(), dres.CoqObs())
 	if !dres.Known {
 		cs.Direct, cs.Note = 1, "unclassified stream outcome"
+	}
+	if dres.Hung {
+		cs.Direct = 3
+		cs.Note = fmt.Sprintf("HANG: the Decrypt stream neither delivered data nor ended within %v on one Read: the pipe was never closed", encx.ReadDeadline)
+		ctx.Sink.Count("outcome=HANG")
 	}
 	ctx.Sink.Count("recipe=" + in.Recipe)
 	ctx.Sink.Count("cipher=" + encx.CphNames[in.Cph])
@@ -806,6 +856,10 @@ func gen(ctx *core.Ctx) {
 						modes := []string{"", "data_sticky", "data_once_eof", "data_once_continue"}
 						for i, fe := range encx.FailNames {
 							in.FailErr, in.FailMode, in.OneRead = fe, modes[(i+cph)%4], false
+							in.Src = ""
+							if (i+cph)%3 == 0 {
+								in.Src = encx.IfaceNames[(i/3)%len(encx.IfaceNames)]
+							}
 							in.Seed = r.U64()
 							must(in)
 						}
@@ -813,7 +867,7 @@ func gen(ctx *core.Ctx) {
 						// failure offset in ONE read (the read that completes the header / the document)
 						for _, fm := range modes[1:] {
 							for _, one := range []bool{false, true} {
-								in.FailErr, in.FailMode, in.OneRead = "", fm, one
+								in.FailErr, in.FailMode, in.OneRead, in.Src = "", fm, one, ""
 								in.Seed = r.U64()
 								must(in)
 							}
@@ -821,6 +875,12 @@ func gen(ctx *core.Ctx) {
 						continue
 					}
 					in.WrapEOF = r.Chance(1, 4)
+					// a third of the cases: the source also has Seek / ReadAt / WriteTo / ReadByte / Len ...
+					// methods, none of which works; half of those deliver the whole document in one read
+					if r.Chance(1, 3) {
+						in.Src = encx.IfaceNames[r.Intn(len(encx.IfaceNames))]
+						in.OneRead = r.Bool()
+					}
 					must(in)
 				}
 			}
